@@ -225,6 +225,84 @@ class FitL1Frame(FrameFit):
         return dict(self=E.new_obj(MM + "kmeans_l1.py::KMeansL1L2", f), X=E.nd("X", (n, d)), y=None, sample_weight=E.nd("w", (n,)) if has_w else None)
 
 
+@contract(MM + "decision_tree_logreg.py::_DecisionTreeLogisticRegressionNode.fit", "C02", assumed=True)
+class NodeFitOpaque(Contract):
+    """the recursive node fit: opaque here (may raise; fits clones of dtlr.estimator, never dtlr.estimator itself); functional contract under C10"""
+
+    def result(self, E, a, old):
+        models.maybe_raise(E, "node.fit")
+        E.call_method(a.self.fields["estimator"], "fit", [a.X, a.y], {"sample_weight": a.sample_weight}, None)    # the node's own classifier is fitted
+        return E.int("last_index")
+
+
+@contract(MM + "decision_tree_logreg.py::DecisionTreeLogisticRegression.fit", "C02")
+class DtlrFit(FrameFit):
+    frame_only = True
+    variants = [False, True]
+    params = ["estimator", "max_depth", "min_samples_split", "min_samples_leaf", "min_weight_fraction_leaf", "fit_improve_algo", "p1p2", "gamma",
+              "verbose", "strategy"]
+
+    def setup(self, E, has_w):
+        f = dict(estimator=models.new_estimator(E, "est", methods=EST_METHODS), max_depth=E.size("max_depth", 1), min_samples_split=E.int("mss"),
+                 min_samples_leaf=E.int("msl"), min_weight_fraction_leaf=E.real("mwfl"), fit_improve_algo="auto", p1p2=E.real("p1p2"), gamma=E.real("gamma"),
+                 verbose=0, strategy="parallel")
+        d = data(E, has_w, "int")
+        l0, l1 = E.int("label0"), E.int("label1")
+        E.assume(l0 != l1)
+        i = z3.Int("li")
+        E.assume(z3.ForAll([i], z3.Or(d["y"].cell.term[i] == l0, d["y"].cell.term[i] == l1)))
+        d["y"].cell.labels = [l0, l1]
+        return dict(self=E.new_obj(MM + "decision_tree_logreg.py::DecisionTreeLogisticRegression", f), **d)
+
+    def at_exit(self, E, a, old, exc):
+        out = FrameFit.at_exit(self, E, a, old, exc)
+        out["given_estimator_never_fitted"] = z3.BoolVal(("call", "fit") not in a.self.fields["estimator"].events)
+        return out
+
+
+@contract(MM + "piecewise_estimator.py::PiecewiseEstimator._mapping_train", "C02", assumed=True)
+class MappingTrainOpaque(Contract):
+    def result(self, E, a, old):
+        models.maybe_raise(E, "_mapping_train")
+        n = a.X.shape[0]
+        return (NdArr.fresh("association", (n,), "real"), {("leaf", 0): 0, ("leaf", 1): 1}, [("leaf", 0), ("leaf", 1)])
+
+
+@contract(MM + "piecewise_estimator.py::_fit_piecewise_estimator", "C02", assumed=True)
+class FitBucketOpaque(Contract):
+    """one bucket: opaque here (may raise; fits the clone it is given); functional contract under C08"""
+
+    def result(self, E, a, old):
+        models.maybe_raise(E, "_fit_piecewise_estimator")
+        E.call_method(a.model, "fit", [a.X, a.y], {"sample_weight": a.sample_weight}, None)
+        return a.model
+
+
+@contract(MM + "piecewise_estimator.py::PiecewiseEstimator.fit", "C02")
+class PiecewiseFit(FrameFit):
+    frame_only = True
+    variants = [(cls, hw) for cls in ("PiecewiseRegressor", "PiecewiseClassifier") for hw in (False, True)]
+    params = ["binner", "estimator", "n_jobs", "verbose"]
+
+    def setup(self, E, v):
+        cls, has_w = v
+        f = dict(binner=models.new_estimator(E, "binner", methods=EST_METHODS + ("decision_path",)),
+                 estimator=models.new_estimator(E, "estimator", methods=("fit", "predict", "get_params", "set_params")), n_jobs=None, verbose=False)
+        f["estimator"].fields["$fitted_attrs"] = set()
+        if cls == "PiecewiseClassifier":
+            f["random_state"] = E.int("seed")
+        return dict(self=E.new_obj(MM + "piecewise_estimator.py::" + cls, f), **data(E, has_w))
+
+    def at_exit(self, E, a, old, exc):
+        out = FrameFit.at_exit(self, E, a, old, exc)
+        s = a.self
+        out["given_binner_and_estimator_never_fitted"] = z3.BoolVal(
+            ("call", "fit") not in s.fields["binner"].events and ("call", "fit") not in s.fields["estimator"].events)
+        if "random_state" in s.fields:
+            out["hyper_parameter_random_state_unchanged"] = z3.BoolVal(bool(z3.eq(z(s.fields["random_state"]), z(old["params"].get("random_state", s.fields["random_state"])))))
+        return out
+
+
 @contract(MM + "target_predictors.py::TransformedTargetRegressor2.fit", "C02")
 class TtrFit(FrameFit):
     frame_only = True
